@@ -372,6 +372,121 @@ def run_member_joint(R, binary):
     return mism + unk + [l for _, l in safety]
 
 
+def run_snap_report(R, binary):
+    """suite "snapstatus-lockstep" (step 8): schedules of the profiles snap-report / snap-report-partition - compaction with a lagging follower (MsgSnap), crashes,
+    restarts, partitions, and the transport's reports on the LEADER's RawNode: ReportSnapshot(id, SnapshotFinish | SnapshotFailure), ReportUnreachable(id), at
+    random and right after a MsgSnap was emitted, before it is delivered (then a heartbeat that overtakes it); half of the schedules open with the prologue
+    scriptSnapReport.  Replayed on RS.handle (inputs snapStatus / unreachable: the projection incl. match[] must not move) and RS.reportProg (the follower's whole
+    Progress record before -> after the report)"""
+    if R.tier == "quick":
+        per_profile, events, workers = 5, 250, 1
+    else:
+        per_profile, events, workers = 400, 600, max(2, min(10, (os.cpu_count() or 4) - 2))
+    lines, harness_s, rc_all, t_suite = [], 0.0, 0, time.time()
+    for k, prof in enumerate(("snap-report", "snap-report-partition")):
+        t0 = time.time()
+        l1, se, rc = core.run_harness(binary, "raftsim", [], args=["-schedules", str(per_profile), "-events", str(events), "-seed", str(R.seed * 19 + 5 + k),
+                                                                  "-profile", prof, "-stageA", "0"])
+        harness_s += time.time() - t0
+        rc_all = rc_all or rc
+        lines += l1
+    # negative control: in up to 6 schedules the Match of the Progress record observed AFTER one snapshot report is raised to the pending snapshot's index
+    # (what the seeded change C15-snapstatus-finish-sets-match did) - else the Next field is changed; the driver must object to each
+    ctl, damaged = [], 0
+    for start, sched in split_schedules(lines):
+        es = [i for i, l in enumerate(sched) if l.startswith("E report ") and ":S," in l.split(" ")[3]]
+        if not sched or not sched[0].startswith("R ") or not es or damaged >= 6:
+            continue
+        sched = list(sched)
+        at = es[0]
+        f = sched[at].split(" ")
+        g = f[3].split(":")
+        pre, post = g[-2].split(","), g[-1].split(",")
+        post[1] = pre[3]
+        g[-1] = ",".join(post)
+        f[3] = ":".join(g)
+        sched[at] = " ".join(f)
+        ctl += sched[:at + 1]
+        damaged += 1
+    with concurrent.futures.ThreadPoolExecutor(max_workers=2) as ex:
+        fut_ctl = ex.submit(run_raft_driver, ctl) if damaged else None
+        ds = run_driver_parallel(lines, workers)
+        dc = fut_ctl.result() if fut_ctl else None
+    mism = [m for d in ds for m in d["mismatches"] if " impl-safety :: " not in m]
+    unk = [u for d in ds for u in d["unknown"]]
+    summ = {}
+    for d in ds:
+        for k, v in d["summary"].items():
+            if v.isdigit():
+                summ[k] = summ.get(k, 0) + int(v)
+    evs = [l for l in lines if l.startswith("E ")]
+    safety = [(n, l) for n, l in enumerate(lines, 1) if l.startswith("SAFETY-VIOLATION") or l.startswith("HARNESS-BUG")]
+    agg = {}
+    for l in lines:
+        if l.startswith("# STATS"):
+            for k, v in parse_stats(l).items():
+                if isinstance(v, int) and k not in ("n", "events"):
+                    agg[k] = agg.get(k, 0) + v
+    need = ["in-report-snapshot-finish/from-snapshot+next", "in-report-unreachable/from-replicate+next", "in-recv-snap"]
+    need_any = [("in-report-snapshot-failure/from-snapshot", "in-report-snapshot-failure/from-snapshot+next")]
+    if R.tier != "quick":
+        need += ["in-report-snapshot-finish/from-probe", "in-report-snapshot-finish/no-progress", "in-report-unreachable/from-probe", "br:recv/snap/restore"]
+    missing = [k for k in need if summ.get(k, 0) == 0] + [a for a, b in need_any if summ.get(a, 0) + summ.get(b, 0) == 0] + \
+        [k for k in ("scripted-snap-report", "heartbeat-overtakes-snapshot", "report-before-snapshot-delivered") if agg.get(k, 0) == 0]
+    nev = summ.get("events", 0)
+    nrep = sum(v for k, v in summ.items() if k.startswith("in-report-"))
+    R.add_cases(nev, nrep, samples=[l for l in evs if l.startswith("E report ") and ":S," in l][:2] + [l for l in evs if l.startswith("E report ") and ":R," in l][:1])
+    ok = rc_all == 0 and not mism and not unk and nev == len(evs) and nev > 0 and not missing
+    R.oblige("lock-step with the transport's reports: raft.RawNode = RS.handle on every event of the snap-report / snap-report-partition schedules, "
+             "RawNode.ReportSnapshot(id, SnapshotFinish|SnapshotFailure) and RawNode.ReportUnreachable(id) on leaders and non-leaders included (inputs snapStatus / "
+             "unreachable: term, vote, role, lead, commit, log and match[] of every peer must be what they were; the reported follower's Progress record - State, Match, "
+             "Next, PendingSnapshot, ProbeSent, inflights - after the report must be RS.reportProg of the record before it; every message emitted afterwards, the Commit "
+             "field of the next heartbeats included, a computed response or leaderOut of the model's node); reports made right after a MsgSnap was emitted and before it "
+             "is delivered, heartbeats that overtake the snapshot, followers that restart without it", "correspondence", ok,
+             "%d schedules, %d/%d events replayed, %d report events, %d mismatches, %d unknown, never seen: %s" % (
+                 summ.get("schedules", 0), nev, len(evs), nrep, len(mism), len(unk), ",".join(missing) or "-"))
+    R.oblige("safety predicates evaluated on the RawNodes' states after every event of the snap-report schedules (two entries committed at one index, a committed "
+             "entry rewritten, a leader lacking a committed entry, a panic such as commitTo out of range)", "search", not safety, "%d violations" % len(safety))
+    if damaged:
+        hit = len(set(m.split()[1] for m in dc["mismatches"] + dc["unknown"] if len(m.split()) > 1))
+        R.oblige("negative control snapstatus lock-step: the driver objects to a Progress record whose Match was raised to the pending snapshot's index by the report "
+                 "(%d schedules damaged, %d objections)" % (damaged, hit), "control", hit >= damaged, "%d of %d" % (hit, damaged))
+        R.extra.setdefault("negative_control", {})["snapstatus_lockstep"] = dict(damaged=damaged, reported=hit)
+        if hit < damaged:
+            R.violation("negative-control-snapstatus", dict(kind="tie-broken", summary="the snapstatus lock-step driver accepted damaged Progress records (%d of %d reported)" % (
+                hit, damaged), trace=ctl[:60]), found_input=False)
+    R.suites.append(dict(name="snapstatus-lockstep", schedules=summ.get("schedules", 0), events=nev, mismatches=len(mism) + len(unk),
+                         safety_violations=len(safety), wall_s=round(time.time() - t_suite, 1), harness_s=round(harness_s, 1), driver_s=round(max(d["seconds"] for d in ds), 1), driver_processes=len(ds)))
+    R.extra["snapstatus_lockstep"] = dict(
+        schedules=summ.get("schedules", 0), events=nev, report_events=nrep, mismatches=len(mism) + len(unk),
+        report_inputs={k[3:]: v for k, v in sorted(summ.items()) if k.startswith("in-report-")},
+        scripted_prologues=agg.get("scripted-snap-report", 0), reports_before_snapshot_delivered=agg.get("report-before-snapshot-delivered", 0),
+        heartbeats_overtaking_snapshot=agg.get("heartbeat-overtakes-snapshot", 0), snapshots_sent=agg.get("snap-sent", 0), snapshots_restored=agg.get("snap-restored", 0),
+        restarts=agg.get("restarts", 0),
+        note="report inputs by kind/state of the follower's Progress before the report (+next: Next moved; no-progress: the node is no leader and ignores the report). "
+             "scripted prologue: a deposed leader with an uncommitted tail of term 1, the leader of term 2 compacts past it, MsgSnap in flight (or lost, the follower "
+             "restarted), SnapshotFinish / Failure reported, the heartbeat delivered first - a leader that takes the report for an acknowledgement (Match = PendingSnapshot) "
+             "differs from RS.handle at the report and makes the follower commit its stale tail (both seen with the seeded change C15-snapstatus-finish-sets-match). "
+             "Theorems: RS.snapStatus_never_changes_match, RS.snapStatus_stutters, RS.heartbeat_commit_after_report (Props/C15SnapStatus.lean)")
+    for k, sv in enumerate(safety[:2]):
+        hdr, prefix = schedule_of_line(lines, sv[0])
+        f = hdr.split()
+        R.violation("raftsim-snapstatus-safety-%d" % k, dict(
+            kind="impl-violates-spec", engine="raftsim", suite="snapstatus-lockstep", summary=sv[1][:300],
+            schedule=dict(n=int(f[1]), seed=int(f[2]), profile=f[3], events=int(f[4])), trace=prefix[-400:],
+            explanation="a C15 safety predicate failed (or RawNode panicked) on a schedule with transport reports; the trace is the schedule prefix"))
+    for k, m in enumerate((mism + unk)[:3]):
+        n = int(m.split()[1])
+        hdr, prefix = schedule_of_line(lines, n)
+        f = hdr.split()
+        sched = dict(n=int(f[1]), seed=int(f[2]), profile=f[3], events=int(f[4])) if hdr.startswith("R ") and len(f) >= 5 else None
+        R.violation("raftsim-snapstatus-lockstep-%d" % k, dict(
+            kind="tie-broken", engine="raftsim", suite="snapstatus-lockstep", summary=m[:400], schedule=sched, trace=prefix[-400:] if sched else [lines[n - 1]],
+            explanation="raft.RawNode and RS.handle / RS.reportProg disagree on this event: a report of the transport (ReportSnapshot / ReportUnreachable) must leave the "
+                        "node's safety projection - Match of every follower included - alone and move the follower's Progress as tracker.Progress.BecomeProbe does"))
+    return mism + unk + [l for _, l in safety]
+
+
 def run_driver_chunks(lines, workers):
     """self-contained lines (no schedule state): split evenly over `workers` interpreted drivers"""
     if workers <= 1 or len(lines) < 4000:
@@ -556,6 +671,9 @@ def run(R, ctx):
 
     # ---- Stage D, step 7: schedules with joint changes replayed on the executable joint handler RHJ.handleJ
     mism_d = mism_d + run_member_joint(R, binary)
+
+    # ---- step 8: the transport's reports (ReportSnapshot / ReportUnreachable) in the lock-step
+    mism_d = mism_d + run_snap_report(R, binary)
 
     # ---- failing schedules
     for k, sv in enumerate(safety[:3]):
